@@ -156,6 +156,31 @@ def resolve_table(ctx: Ctx, I: Interp) -> None:
                   f"names are no longer ordered by first occurrence", witness="resolution of [b-1.0, a-1.0] must keep b first")
 
 
+def _at_most_one(atoms: Any, v: Any) -> bool:
+    """The path's count decisions on `v` bound its length by one."""
+    uid = getattr(v, "uid", None)
+    if uid is None:
+        return False
+    groups = [(a[0][2], a[1]) for a in atoms if isinstance(a[0], tuple) and a[0][0] == "count" and a[0][1] == uid]
+    if not groups:
+        return False
+    covered = set()
+    for ks, _ in groups:
+        covered |= set(ks)
+    from ..values import ALL_KINDS
+    if covered != set(ALL_KINDS):
+        return False
+    n = 0
+    for _, lab in groups:
+        if lab == "n=0":
+            continue
+        if lab == "n=1":
+            n += 1
+        else:
+            return False
+    return n <= 1
+
+
 def collection_table(ctx: Ctx, I: Interp) -> None:
     prog = ctx.prog
     where = f"{CORE}:TagList.get_dependencies"
@@ -219,6 +244,10 @@ def collection_table(ctx: Ctx, I: Interp) -> None:
         dedup = d == 0
         v = l.value
         is_resolved = isinstance(v, SObj) and (v.meta.get("call") or {}).get("func") is not None and v.meta["call"]["func"].qual == "_resolve_dependencies"
+        if dedup and not is_resolved and _at_most_one(l.atoms, v):
+            # resolution of a list of at most one dependency is that list (C10.table: an unseen name is kept)
+            ctx.check(True, "C10.dedup", "dedup=True: a collection of at most one dependency is returned as it is", where, f"dedup=True, len <= 1 -> {short(v)}", "")
+            continue
         ctx.check(is_resolved == dedup, "C10.dedup", f"dedup={dedup}: result is {'resolved' if dedup else 'the raw collection'}", where,
                   f"dedup={dedup} -> {short(v)}", f"with dedup={dedup} the result is {short(v)}")
     # Tag.get_dependencies forwards dedup
